@@ -357,6 +357,32 @@ def first_export_under_threads(ctx, rng):
         sys.setswitchinterval(old)
 
 
+def export_orders(ctx, rng):
+    """every export of one key object after every other one: a private export (explicit, or by default) made before does not show in a public one made later"""
+    import itertools
+    j = J.load()
+    for kind in ("RSA:2048", "EC:P-256", "OKP:Ed25519", "EC:P-521", "OKP:X448"):
+        jwk = K.new_jwk(kind, None)
+        needles = needles_of(jwk)
+        cls = K.cls_of(jwk["kty"])
+        private_calls = [("as_der()", lambda k: k.as_der()), ("as_pem()", lambda k: k.as_pem()), ("as_dict()", lambda k: k.as_dict()), ("as_der(private=True)", lambda k: k.as_der(private=True)),
+                         ("as_pem(private=True,password)", lambda k: k.as_pem(private=True, password="pw")), ("as_bytes()", lambda k: k.as_bytes()), ("as_dict(private=True)", lambda k: k.as_dict(private=True)),
+                         ("as_der(private=None)", lambda k: k.as_der(private=None))]
+        public_calls = [("as_der(private=False)", lambda k: k.as_der(private=False)), ("as_pem(private=False)", lambda k: k.as_pem(private=False)), ("as_dict(private=False)", lambda k: k.as_dict(private=False)),
+                        ("as_bytes(private=False)", lambda k: k.as_bytes(private=False)), ("thumbprint()", lambda k: k.thumbprint()), ("KeySet.as_dict(private=False)", lambda k: j.KeySet([k]).as_dict(private=False))]
+        for how in ("jwk", "pem"):
+            for (pn, pf), (qn, qf) in itertools.product(private_calls, public_calls):
+                ctx.ev()
+                key = cls.import_key(dict(jwk)) if how == "jwk" else cls.import_key(gen.to_pem(jwk))
+                first = call(pf, key)
+                second = call(qf, key)
+                third = call(qf, key)
+                ctx.count("export_order_cases")
+                for label, out in ((qn + f" after {pn}", second), (qn + f" twice after {pn}", third)):
+                    if out.ok:
+                        scan(ctx, label, out.value, needles, {"export_orders": True, "kind": kind, "how": how}, private_names_forbidden=isinstance(out.value, dict))
+
+
 def run_shard(ctx):
     J.load()
     J.register_drafts()
@@ -373,6 +399,8 @@ def run_shard(ctx):
         odd_public_keys(ctx, rng)
         if ctx.shard in (3, 7, 11):
             first_export_under_threads(ctx, rng)
+        if ctx.shard == 5:
+            export_orders(ctx, rng)
         n = 60 if ctx.tier == "quick" else 2500
         for i in range(n):
             if ctx.out_of_time():
